@@ -29,6 +29,8 @@ func main() {
 		runCoincide(cfg, rep)
 	case "fanout":
 		runFanout(cfg, rep)
+	case "handoff":
+		runHandoff(cfg, rep)
 	default:
 		runStress(cfg, rep)
 	}
@@ -571,4 +573,64 @@ func runFanout(cfg *vc.Config, rep *vc.Report) {
 			rep.Sample(desc)
 		}
 	})
+}
+
+// ---------------------------------------------------------------------------------------------- release vs enqueue
+
+// runHandoff: a holder releases at the very moment a conflicting request arrives (both released by one barrier, with a
+// seeded skew of a few spins). Whatever the order, the request must be granted: if its failed attempt and its enqueueing
+// are not one step with respect to the release, the wake-up is lost and it stays pending although the account is free.
+func runHandoff(cfg *vc.Config, rep *vc.Report) {
+	cfg.Cases(40000, 2000000, func(i int, r *vc.Rand) {
+		locker := command.NewDefaultLocker()
+		hAcc := command.Accounts{Write: []string{"a"}}
+		wAcc := command.Accounts{Write: []string{"a"}}
+		if r.Chance(1, 3) {
+			wAcc = command.Accounts{Read: []string{"a"}}
+		}
+		hUnlock, err := locker.Lock(context.Background(), hAcc)
+		if err != nil {
+			rep.Violate("error-without-cancellation:handoff", err.Error(), i, nil)
+			return
+		}
+		rep.Eval()
+		start := make(chan struct{})
+		granted := make(chan command.Unlock, 1)
+		skewW, skewH := r.Intn(40), r.Intn(40)
+		go func() {
+			<-start
+			for k := 0; k < skewW; k++ {
+				runtime.Gosched()
+			}
+			u, err := locker.Lock(context.Background(), wAcc)
+			if err == nil {
+				granted <- u
+			}
+		}()
+		go func() {
+			<-start
+			for k := 0; k < skewH; k++ {
+				runtime.Gosched()
+			}
+			hUnlock(context.Background())
+		}()
+		close(start)
+		select {
+		case u := <-granted:
+			u(context.Background())
+			rep.Inc("handoffs")
+		case <-time.After(20 * time.Second):
+			rep.Violate("pending-at-quiescence:release-coincides-with-enqueue", "the holder released while the request was being enqueued; the request is still pending although the account is free", i,
+				map[string]any{"index": i, "waiter": wAcc, "skew_waiter": skewW, "skew_holder": skewH})
+			rep.Write(true)
+			os.Exit(0)
+		}
+		if i%500 == 0 {
+			rep.DistinctCase(vc.Hash64(fmt.Sprint("handoff", skewW, skewH)))
+			if held := leaked(locker, []string{"a"}); held != nil {
+				rep.Violate("lock-left-behind:handoff", strings.Join(held, ","), i, nil)
+			}
+		}
+	})
+	rep.Sample(map[string]any{"scenario": "holder releases while a conflicting request enqueues", "note": "both released by one barrier with 0-39 spins of skew each"})
 }
